@@ -355,6 +355,11 @@ func ConvertToJSON(val lua.LValue) string {
 		}
 		return "false"
 	case lua.LTNumber:
+		float := float64(val.(lua.LNumber))
+		if math.IsNaN(float) || math.IsInf(float, 0) {
+			// JSON has no NaN or Infinity: the text the RESP reply shows, as a string
+			return jsonString(val.String())
+		}
 		return val.String()
 	case lua.LTString:
 		if b, err := json.Marshal(val.String()); err != nil {
@@ -378,14 +383,15 @@ func ConvertToJSON(val lua.LValue) string {
 			start = `{`
 			end = `}`
 			cb = func(lk lua.LValue, lv lua.LValue) {
+				// a member name is a string, whatever the type of the key
 				values = append(
-					values, ConvertToJSON(lk)+`:`+ConvertToJSON(lv))
+					values, jsonString(lk.String())+`:`+ConvertToJSON(lv))
 			}
 		}
 		tbl.ForEach(cb)
 		return start + strings.Join(values, `,`) + end
 	}
-	return "Unsupported lua type: " + val.Type().String()
+	return `{"err":` + jsonString("Unsupported lua type: "+val.Type().String()) + `}`
 }
 
 func luaSetRawGlobals(ls *lua.LState, tbl map[string]lua.LValue) {
